@@ -147,7 +147,9 @@ MODEL_CHOICES = [
     ["named", "BTOXSGAMMA", [["num", "2"]]], ["named", "PYTHIA", [["num", "21"]]],
 ]
 
-BF_CHOICES = ["1.0", "0.5", "0.25", "0.125", "1", "0.3", "0.0271", "0.0542", "1e-3", "2E-4", ".5", "1.", "0.98823", "0.6770"]
+BF_CHOICES = ["1.0", "0.5", "0.25", "0.125", "1", "0.3", "0.0271", "0.0542", "1e-3", "2E-4", ".5", "1.", "0.98823", "0.6770",
+              # fractions with many digits, values next to a round one, rare modes
+              "0.91234567891", "0.333333333333", "0.74999999964", "3.6e-10", "1.2E-12", "0.000000000437"]
 
 
 def gen_tables(rng: random.Random, n_dec=None, max_lines=4, max_ds=4, aliases=True, empty_blocks=True, depth_bias=0.5):
